@@ -2,7 +2,7 @@ from check import run_diff_property
 
 CFG = dict(
     streams=[('pass', 120, 1500), ('dbuf', 1500, 30000, 'http2test')],
-    oracle_ops={'pass'},
+    oracle_ops={'pass', 'passtr'},
     http2_ops={'dbuf'},
     rule=("pass: generated requests (9 methods/paths incl. escapes, dot segments, ';' parameters; 7 query shapes incl. ';' and "
           "repeated keys; 5 Host values; 0-8 headers from 19 end-to-end names with repeated / empty / 8 KB / non-ASCII values plus "
@@ -22,7 +22,7 @@ CFG = dict(
         "request trailers are not forwarded by httputil.ReverseProxy (Request.Clone copies the announced trailer keys before the body is read); the property does not list them for the request direction and the oracle pins the observed behaviour",
         "the Go HTTP/2 client transport cannot send padded DATA frames; padding arithmetic is covered by C12/C19",
     ],
-    nontrivial=lambda o, i: (o.startswith('pass') and (';' in o.split('reqs=')[1] or '.0.' not in o)) or (o.startswith('dbuf') and o.count(';') >= 3),
+    nontrivial=lambda o, i: o.startswith('passtr') or (o.startswith('pass ') and (';' in o.split('reqs=')[1] or '.0.' not in o)) or (o.startswith('dbuf') and o.count(';') >= 3),
 )
 
 
